@@ -6,7 +6,7 @@ set -u
 ID=$1; SRC=$2; NAME=${3:-$ID}
 W=/tmp/confirm-$NAME
 git -C /repo worktree remove --force $W 2>/dev/null
-git -C /repo worktree add --detach $W HEAD >/dev/null 2>&1 || exit 2
+git -C /repo worktree add --detach $W ${SEED_BASE:-HEAD} >/dev/null 2>&1 || exit 2
 cd $W
 PYTHONPATH=$W PYTHONHASHSEED=0 /venv/bin/python $SRC/demo.py >/tmp/confirm-$NAME.base.log 2>&1; BASE=$?
 git apply $SRC/patch.diff || { echo "patch does not apply"; git -C /repo worktree remove --force $W; exit 2; }
